@@ -6,7 +6,7 @@ import casadi as ca
 
 from .. import oracles as O
 from ..caseval import Ev
-from ..groups import base_specs, product_specs, ProductSpec
+from ..groups import base_specs, product_specs, ProductSpec, extra_euler_specs
 from .lie_common import (lib_call, euler_ok, mrp_product_ok, algebra_corpus, group_corpus, configs_for_shard, rot_angles)
 
 PI = np.pi
@@ -25,7 +25,7 @@ N_THOROUGH = 250000
 def run(ctx):
     N = N_QUICK if ctx.quick else N_THOROUGH
     cfg_rng = np.random.default_rng([ctx.seed, 104])
-    specs = base_specs() + product_specs(cfg_rng, ctx.tier)
+    specs = base_specs() + extra_euler_specs() + product_specs(cfg_rng, ctx.tier)
     for spec in configs_for_shard(specs, ctx):
         check_config(ctx, spec, N if not isinstance(spec, ProductSpec) or ctx.quick else max(1000, N // 20))
 
@@ -163,12 +163,15 @@ def numeric_path(ctx, spec, G, rng, n=120):
     refA, refX = oracle_Ad(spec, MA), oracle_ad(spec, X)
     eA, eX = [], []
     offered = True
+    held = []  # results are kept and read only after all calls: a result must be a value, not a view of shared state
     for k in range(len(A)):
         if not okA[k]:
             eA.append(0.0)
             continue
         try:
-            v = ca.DM(G.elem(ca.DM(A[k])).Ad()).full()
+            r_ = G.elem(ca.DM(A[k])).Ad()
+            held.append((k, r_))
+            v = ca.DM(r_).full()
             eA.append(float(np.abs(v - refA[k]).max()) if v.shape == refA[k].shape and np.isfinite(v).all() else np.inf)
         except NotImplementedError:
             offered = False
@@ -179,9 +182,14 @@ def numeric_path(ctx, spec, G, rng, n=120):
             break
     if offered and eA:
         ctx.check_array("numeric_Ad_is_conjugation", name, eA, 1e-9 * spec.scale(A), {"X": A})
+        late = [float(np.abs(ca.DM(r_).full() - refA[k]).max()) if ca.DM(r_).full().shape == refA[k].shape else np.inf for k, r_ in held]
+        ctx.check_array("Ad_result_unchanged_by_later_calls", name, late, 1e-9 * spec.scale(A[[k for k, _ in held]]), {"X": A[[k for k, _ in held]]})
+    heldx = []
     for k in range(len(X)):
         try:
-            v = ca.DM(alg.elem(ca.DM(X[k])).ad()).full()
+            r_ = alg.elem(ca.DM(X[k])).ad()
+            heldx.append((k, r_))
+            v = ca.DM(r_).full()
             eX.append(float(np.abs(v - refX[k]).max()) if v.shape == refX[k].shape and np.isfinite(v).all() else np.inf)
         except NotImplementedError:
             eX = []
@@ -192,3 +200,5 @@ def numeric_path(ctx, spec, G, rng, n=120):
             break
     if eX:
         ctx.check_array("numeric_ad_is_commutator", name, eX, 1e-9 * spec.alg_scale(X), {"x": X})
+        late = [float(np.abs(ca.DM(r_).full() - refX[k]).max()) if ca.DM(r_).full().shape == refX[k].shape else np.inf for k, r_ in heldx]
+        ctx.check_array("ad_result_unchanged_by_later_calls", name, late, 1e-9 * spec.alg_scale(X[[k for k, _ in heldx]]), {"x": X[[k for k, _ in heldx]]})
